@@ -334,10 +334,18 @@ def run(rep, tier, seed):
                                               % (k, nxt, full['w'], full['failing']), 'signature': None},
                                   replay={'kind': 'schedule', 'workload': full['w'], 'failing': full['failing'], 'moves': full['moves']})
     rep.extra['scheduler_drift_total'] = rep.drift
+    # direction B: free-running real threads (the repository's async tests) under the guarded hooks
+    from .. import suitetrace
+    events, tail = suitetrace.run_tests(['tests/test_cassettes/async'])
+    rep.extra['suite_run'] = tail
+    suitetrace.validate(rep, 'tests/test_cassettes/async (free-running threads)', 'AsyncTrace', suitetrace.async_traces(events))
 
 
 def replay(rep, body):
     rp = body['replay']
+    if rp.get('kind') == 'suite-trace':
+        from .. import suitetrace
+        return suitetrace.replay_trace(body)
     res = execute(WORKLOADS[rp['workload']], rp['failing'], rp['moves'])
     for v in res['violations']:
         print('VIOLATING', v[:500])
